@@ -93,7 +93,7 @@ func (e *Ev) evArgs(n *ast.CallExpr, sig *types.Signature) []Term {
 		}
 		args = append(args, v)
 	}
-	if sig.Variadic() && !n.Ellipsis.IsValid() {
+	if sig.Variadic() && !n.Ellipsis.IsValid() && !e.noPack {
 		// pack the variadic tail into a fresh slice
 		fixed := np - 1
 		tail := args[fixed:]
@@ -835,7 +835,9 @@ func (e *Ev) callExternal(fn *types.Func, recv *Term, n *ast.CallExpr) Term {
 		}
 	}
 	e.instSig = sig
+	e.noPack = true // a dependency's variadic arguments are passed as they are (deterministic function of the items)
 	args := e.evArgs(n, sig)
+	e.noPack = false
 	r := e.callExternalArgs(fn, recv, args, n)
 	e.instSig = nil
 	return r
